@@ -85,6 +85,21 @@ func (p *parentRec) flushMaxes() {
 			f[k] = v
 		}
 		p.Run.SetExtra("first_witness_per_signature", f)
+		// one replayable witness per signature class, also for recorded findings
+		// (vkit writes replay files only for unlisted signatures)
+		dir := filepath.Join(vkit.VerifRoot(), "replay", p.Run.Prop)
+		_ = os.MkdirAll(dir, 0o755)
+		for k, v := range p.first {
+			name := strings.Map(func(r rune) rune {
+				if r >= 'a' && r <= 'z' || r >= 'A' && r <= 'Z' || r >= '0' && r <= '9' || r == '-' || r == '.' {
+					return r
+				}
+				return '_'
+			}, k)
+			m := v.(map[string]any)
+			b, _ := json.MarshalIndent(map[string]any{"property": p.Run.Prop, "seed": p.Run.Seed, "tier": p.Run.Tier, "signature": k, "what": m["what"], "witness": m["witness"]}, "", " ")
+			_ = os.WriteFile(filepath.Join(dir, "class-"+name+".json"), b, 0o644)
+		}
 	}
 }
 
